@@ -1721,6 +1721,8 @@ func runC03(c *Ctx) {
 	if failure != nil {
 		panic(failure)
 	}
+	// call sequences over long-lived inputs, alone in this goroutine (decoder pools are per P)
+	c03Sequences(c, or, c.N(250, 6000))
 }
 
 // c03Replay re-runs one recorded input through the predicate (if the spec accepts it) and the correspondence.
@@ -1742,6 +1744,9 @@ func c03Replay(c *Ctx, fams [][]string) {
 	or := c.NewOracle()
 	if or == nil {
 		fail("replay needs the oracle")
+	}
+	if c03ReplaySeq(c, or, raw) {
+		return
 	}
 	rng := rand.New(rand.NewPCG(c.Seed, 5))
 	ref, class, dup := c03FromOracle(or.Ask1("tree parse "+hx(b)), func(lit, spec, r string) {
